@@ -685,7 +685,7 @@ def execute(sc):
             stats['fault.lapack_routine_failed'] = LAPACK_FIRED[0]
         if s.switch_inside:
             stats['probe.context_switch_inside_call'] = s.switch_inside
-            stats['probe.rare_draws_injected'] = RARE_HITS[0]; RARE_HITS[0] = 0
+            stats['fault.rare_extreme_draw'] = RARE_HITS[0]; RARE_HITS[0] = 0
         nontrivial = 1 if (s.switch_inside or s.perturbed) else 0
         sched_dig = dig(s.trace)
     finally:
